@@ -29,6 +29,9 @@ from harness.fw import REPO, VERIF, Check, Driver, ToolFailure
 
 STEP_TIMEOUT = 60.0
 
+# hand-modelled functions (normalised-AST hashes in gen/pins.json; a change escalates the search, no verdict)
+PINS = [("androguard/session.py", "Session.__init__"), ("androguard/misc.py", "get_default_session")]
+
 
 def tool_failure(msg):
     """`./check` runs harness.fw as __main__, so the ToolFailure its main() catches is __main__.ToolFailure,
@@ -212,7 +215,7 @@ def run_real(case):
         return res
     finally:
         for i in range(N):                       # let anything still blocked go, then reap
-            for a in range(0, 8):
+            for a in range(0, 16):
                 try:
                     open(os.path.join(sync, f"s{i}.release.{a}"), "w").close()
                 except OSError:
@@ -300,11 +303,34 @@ def cases_for(ck: Check):
         cs.append({"N": 3, "b": 0, "base": list(s), "policy": "desc", "via": "session"})
     for b, s in extra:
         cs.append({"N": 3, "b": b, "base": list(s), "policy": ck.rng.choice(("asc", "desc")), "via": "session"})
+    # adversarial family: the victim (session 0) is parked between count and insert while rival r runs to
+    # completion, r = 1..m, so the victim loses the race m times in a row (N = m+1 sessions); this is the
+    # schedule on which a loop with a bounded number of attempts gives up (bounded_retry_refuted)
+    deep = (not ck.quick) or getattr(ck, "escalated", False)
+    for m in (range(1, 8) if deep else (5, 6)):
+        cs.append({"N": m + 1, "b": 0 if m % 2 else 2, "base": victim_schedule(m), "policy": "asc", "via": "session",
+                   "family": f"victim-loses-{m}"})
+    if deep:
+        for n in (6, 7):
+            for _ in range(25):
+                sched = [i for i in range(n) for _ in (0, 1)]
+                ck.rng.shuffle(sched)
+                cs.append({"N": n, "b": ck.rng.choice((0, 1)), "base": sched, "policy": ck.rng.choice(("asc", "desc")),
+                           "via": "session", "family": f"random-{n}"})
     if not ck.quick:
         four = interleavings(4)                     # 2520
         for s in ck.rng.sample(four, 300):
             cs.append({"N": 4, "b": 1, "base": list(s), "policy": ck.rng.choice(("asc", "desc")), "via": "session"})
     return cs
+
+
+def victim_schedule(m):
+    """0 | 1 1 0 | 2 2 0 | … | m m 0 : each `0` after the first is the victim's (rejected) insert; the
+    process re-counts at once, which the runner records as the next read"""
+    out = [0]
+    for r in range(1, m + 1):
+        out += [r, r, 0]
+    return out
 
 
 def overlaps(base):
@@ -318,6 +344,8 @@ def overlaps(base):
 
 
 def run(ck: Check):
+    ck.pins_changed(PINS)
+    ck.run_gen("sessionloop")
     ck.prove(exes=["drv_C36"])
     if not hook_present():
         raise tool_failure(f"hook H1 (fixes/hook-H1-session.diff) is not applied to {REPO}/androguard/session.py: "
@@ -325,13 +353,14 @@ def run(ck: Check):
     warm_up()
     ck.rule = ("all 6 interleavings of 2 sessions (b=0,1,3, and through misc.get_default_session) and all 90 of 3 sessions "
                "(b=0, ascending release order; descending order and b=2 on a seeded sample; thorough: all of them, b=5, and 300 of "
-               "the 2520 interleavings of 4 sessions); "
+               "the 2520 interleavings of 4 sessions); adversarial family 'victim loses m times in a row' with m+1 sessions "
+               "(always m=5,6; thorough or escalated: m=1..7 and 25 seeded interleavings each of 6 and 7 sessions); "
                "distinct = distinct (N, b, effective schedule, entry point); non-trivial = some read falls between another "
                "session's read and insert (the schedules on which the unfixed code fails)")
     corpus = []
     for p in sorted(glob.glob(os.path.join(VERIF, "corpus", "C36", "*.json"))):
         c = json.load(open(p))
-        corpus.append({k: c[k] for k in ("N", "b", "base", "policy", "via") if k in c})
+        corpus.append({k: c[k] for k in ("N", "b", "base", "policy", "via", "family") if k in c})
     cases = corpus + cases_for(ck)
     ctx = multiprocessing.get_context("fork")
     t_replay = time.time()
@@ -350,7 +379,7 @@ def run(ck: Check):
         key = (c["N"], c["b"], tuple(r["eff"]), c.get("via", "session"))
         if ov:
             nontrivial.add(key)
-        k = f"N{c['N']}:{'overlap' if ov else 'sequential'}"
+        k = c.get("family") or f"N{c['N']}:{'overlap' if ov else 'sequential'}"
         dist[k] = dist.get(k, 0) + 1
         nret = sum(1 for t in r["trace"] if t == "retry")
         dist[f"retries={nret}"] = dist.get(f"retries={nret}", 0) + 1
